@@ -78,6 +78,12 @@ func c15Gen(r *rand.Rand, tier string) any {
 	return sc
 }
 
+// nearRerun: offset off lies in the field that marks an interrupted target.
+func nearRerun(data []byte, off int) bool {
+	i := bytes.Index(data, []byte(`"rerun":true`))
+	return i >= 0 && off >= i && off < i+len(`"rerun":true`)
+}
+
 var corruptMasks = []int{0x01, 0x80, -2, -3, 0x20} // xor 1, xor 0x80, set 0x00, set 0xff, ascii case flip
 
 type corruption struct {
@@ -579,7 +585,7 @@ func c15Exec(scAny any, c *simcheck.Ctx) *simcheck.Violation {
 		start := c.Tapes.Get("stride").Intn(stride)
 		for off := start; off < len(data); off += stride {
 			for m := range corruptMasks {
-				if off%len(corruptMasks) == m || c.Tier == "thorough" || len(data) <= 120 {
+				if off%len(corruptMasks) == m || c.Tier == "thorough" || len(data) <= 120 || (stride == 1 && nearRerun(data, off)) {
 					list = append(list, corruption{File: f, Off: off, Mask: m})
 				}
 			}
@@ -630,9 +636,24 @@ func c15Exec(scAny any, c *simcheck.Ctx) *simcheck.Violation {
 		}
 		c.St.Faults[kind]++
 		what := fmt.Sprintf("record %s corrupted (%s at offset %d)", cr.File, kind, cr.Off)
-		for _, preferIndex := range []bool{false, true} {
+		rerunRec := bytes.Contains(recs[cr.File], []byte(`"rerun":true`))
+		for variant, preferIndex := range []bool{false, true, false} {
 			if preferIndex && cr.File != "index.json" && idx%4 != 0 {
 				continue
+			}
+			// variant 2: an invocation that only loads comes between the corruption and the build
+			// (always tried for the record of an interrupted target, else for a third)
+			preload := variant == 2
+			if preload && !rerunRec && idx%3 != 2 {
+				continue
+			}
+			if preload {
+				if err := h.restore(snap); err != nil {
+					return simcheck.V(simcheck.EngineError, "restore: %v", err)
+				}
+				if err := os.WriteFile(filepath.Join(h.w.root, ".dawn", "build", cr.File), data, 0644); err != nil {
+					return simcheck.V(simcheck.EngineError, "write: %v", err)
+				}
 			}
 			op := *final
 			op.Index = preferIndex
@@ -641,6 +662,27 @@ func c15Exec(scAny any, c *simcheck.Ctx) *simcheck.Violation {
 			if idx%3 == 1 {
 				// loaders and targets interleave freely while the damaged record is read
 				pc.Strategy = simrt.StratUniform
+			}
+			if preload {
+				// another invocation comes first that loads the project without building the
+				// label (dawn targets, the REPL, a build of something else): whatever it
+				// reports, it must not make the damaged record look sound
+				pre := h.build(10000+idx, &opSpec{Op: "load-only"}, pc, nil)
+				if pre.Sim.Stuck {
+					v := narrow(simcheck.V("corrupt-record-hang", "%s: loading did not finish within 25 s of real time", what), idx)
+					v.Fatal = true
+					return v
+				}
+				if v := procFailure(pre); v != nil {
+					if v.Class == simcheck.EngineError {
+						return v
+					}
+					v.Class = "corrupt-record-" + v.Class
+					v.Msg = what + " (load only): " + v.Msg
+					return narrow(v, idx)
+				}
+				c.St.Count("loads_without_a_build_between_corruption_and_build", 1)
+				what += ", then a load without a build"
 			}
 			res := h.build(last, &op, pc, nil)
 			if res.Sim.Stuck {
